@@ -49,6 +49,8 @@ def nat_class(r):
 def punch_nontrivial(tok, res):
     if tok[0] == "sidmsg":
         return res.startswith("ok:")
+    if tok[0] == "pwdm":
+        return res[:1] in ("a", "b", "c")
     if tok[0] == "pwait":
         return res.endswith(("#p;p", "#n;n", "#t;n", "#n;t"))
     return False
@@ -61,6 +63,8 @@ def punch_class(r):
         return "mode%s/v=%s/%s" % (v[6], v[5], f[-1]) if len(v) >= 14 else "no-response"
     if r.startswith("ok:"):
         return "decoded"
+    if len(r) >= 3 and r[1] == "#" and r[0] in "abcno":
+        return "wait:" + ("returned" if r[0] in "abc" else "error" if r[0] == "n" else "other") + ("+answered" if r[2:] != "-" else "")
     if "," in r and r.replace(",", "").isdigit():
         return "started"
     return r[:14]
@@ -89,16 +93,24 @@ PROP = {
             "Frp.C20.waitLoop_skips", "Frp.C20.harmless_iff", "Frp.C20.wait_accepts_only", "Frp.C20.sender_probes_reported",
             "Frp.C20.honest_peers_meet_steps", "Frp.C20.key_mismatch_never_meets",
             "Frp.C20.handover_lost_witness", "Frp.C20.handover_main_first_partial", "Frp.C20.handover_buffered_never_lost",
+            "Frp.C20.tables_timing", "Frp.C20.analysisWith_timing", "Frp.C20.analysis_timing",
+            "Frp.C20.classifyLoop_isSome", "Frp.C20.classify_some_iff", "Frp.C20.classify_malformed_error",
+            "Frp.C20.waitLoop_eq_spec", "Frp.C20.waitLoop_memoryless", "Frp.C20.foreign_sid_anywhere",
+            "Frp.C20.waitLoop_filter_harmless",
         ],
         "engines": [
-            {"name": "nat", "quick_n": 4500, "thorough_n": 12000, "thorough_seeds": 5,
+            {"name": "nat", "quick_n": 5000, "thorough_n": 12000, "thorough_seeds": 5,
              "search_n": 3000, "search_seeds": 3,
              "nontrivial": nat_nontrivial, "result_class": nat_class},
             {"name": "punch", "quick_n": 100, "thorough_n": 600, "thorough_seeds": 3,
              "search_n": 240, "search_seeds": 2, "reruns": 1,
              "nontrivial": punch_nontrivial, "result_class": punch_class},
         ],
-        "rule": "nat engine: classification / port-range / analyzer-history ops on the real functions plus controller "
+        "rule": "nat engine: classification (prop: accepted iff >= 2 entries and every entry valid; long lists with one "
+                "malformed / out-of-range entry at every position after every type-deciding prefix), row-walk rounds (a "
+                "fresh controller, one address pair per feature-pair class driven through every row of its score list "
+                "without success; both responses of every row judged incl. read timeout vs. send delay), "
+                "classification / port-range / analyzer-history ops on the real functions plus controller "
                 "rounds on a real nathole.Controller whose per-session scripts (visit, notify, cli, report, close/listen) "
                 "are interleaved: report before the notify / before the NatHoleClient / after an error response / for an "
                 "expired or unknown sid / twice, NatHoleClient before the notify / repeated / from a second control; every "
@@ -107,8 +119,11 @@ PROP = {
                 "classification succeeds, a range is produced, a recommendation is made, a report meets a stored "
                 "session, a session is still stored after settle, or a session produced a response pair. punch engine: "
                 "real ExchangeInfo + MakeHole of both parties on loopback over real MessageTransporters and a real "
-                "Controller (all five modes, noise datagrams, key mismatch, insider datagram, late response) and the "
-                "sid-message codec; non-trivial when a message decodes or two MakeHole runs ended. "
+                "Controller (all five modes, noise datagrams incl. well-formed same-key messages of another session with "
+                "Response true / false at both or one socket, key mismatch, insider datagram, late response), single real "
+                "waitDetectMessage runs over a queued inbox (pwdm: own / foreign / near-miss / empty sid x Response, junk, "
+                "other key, truncated, three sources, any order; prop: the outcome is the memoryless specification's) and "
+                "the sid-message codec; non-trivial when a message decodes, a wait returns or two MakeHole runs ended. "
                 "distinct = distinct (op line, result) pairs",
         "trusted": COMMON_TRUST + [
             "translator /verif/translate (generator NatTables, go/ast) regenerates Frp/Gen/NatTables.lean from "
@@ -148,7 +163,12 @@ META = {
                 "responses carry the same sid and mode, complementary roles and each other's addresses; role rules of "
                 "modes 1/2/4 hold; every successful analysis was computed from validated addresses and all its port "
                 "ranges satisfy 1 <= From <= To <= 65535, malformed or out-of-range addresses give the error pair "
-                "(analysis_full, analysis_malformed_error; repaired by f51e354). Sessions are created only for a "
+                "(analysis_full, analysis_malformed_error; repaired by f51e354): ClassifyNATFeature accepts exactly the lists "
+                "of >= 2 entries ALL of which are valid, wherever the NAT type is decided (classify_some_iff, "
+                "classify_malformed_error). The instructions also fit in time: for every row of every regenerated table, in "
+                "either column assignment, and so for every history, the party that is not the sender is told to read for "
+                "longer than the sender is held back (1 s) and told to wait (tables_timing, analysis_timing; part of the "
+                "predicate fullOk evaluated on the implementation's responses). Sessions are created only for a "
                 "correctly signed request by an allowed user naming a registered proxy (allow list: C08 fix), responses "
                 "go only to the session's visitor transporter and to a transporter that submitted a NatHoleClient for "
                 "that sid, every handler step strictly lowers a rank, and in every reachable state every stored session "
@@ -158,7 +178,10 @@ META = {
                 "not yet analysed or failed-analysis session changes nothing at all (report_not_analysed_noop); for an "
                 "analysed session only the score list of its own key changes, by ReportSuccess (report_frame, "
                 "report_score_only). Client side: whatever arrives in whatever order, waitDetectMessage returns only on a "
-                "message of its own session that decoded with its key, a sender only on a response (wait_accepts_only); "
+                "message of its own session that decoded with its key, a sender only on a response (wait_accepts_only), "
+                "and its decision depends on the current datagram alone: the loop equals the memoryless specification "
+                "(waitLoop_eq_spec, waitLoop_memoryless), messages of other sessions with Response true or false queued "
+                "anywhere change nothing (foreign_sid_anywhere, waitLoop_filter_harmless); "
                 "for every instruction pair of a successful analysis two parties bound at addresses they reported, with "
                 "the same key and any harmless noise, both return with the other's address (honest_peers_meet_steps); "
                 "with different keys nobody returns. OPEN finding: in the many-socket modes the hand-over of the result "
